@@ -1,20 +1,22 @@
 # run parameters and manifest texts of the C13 check (read by ../props.py)
-PROP = dict(
-    engine="stack", test="TestC13", level="exploration",
-    quick=dict(checks=500, shards=12, timeout=1200),
-    thorough=dict(checks=6000, shards=14, timeout=3400),
-    rule="rapid draws, guided by a reference model, an interleaved sequence of <=18 calls of 1-3 external extensions and up to 3 internal ones "
-         "(sent by the runtime process) over {register(events from {INVOKE,SHUTDOWN,JUNK}, name own/empty, feature header none/accountId/"
-         "junk, body valid/malformed/configurationKeys), next, init/error, exit/error with identifier own/missing/invalid/unknown and "
-         "with/without the error-type header} plus the runtime's next and the arrival of an invocation; random function name, version, "
-         "handler, account id; a limit family with 8-12 external extension files. Calls run strictly one after the other (latches). "
-         "Oracle: reference automaton per extension + global rules (unique names, <=10 extensions, event allow-list, SHUTDOWN only "
-         "external, identifier checks, finality of init/exit error, registration closed after the runtime's first next) predicts status and "
-         "error type of every call; register responses must equal the init parameters (accountId only when requested); if every extension "
-         "is healthy the sequence is closed (everybody polls, an invocation arrives, everybody returns) and the invocation must complete - "
-         "so refused calls have changed no state and no barrier count. Non-trivial: external and internal extensions both act and >=1 call is refused.",
-    assumptions=["fake process supervisor (DESIGN 3.4)", "extensions in a final error state keep initialisation waiting by design, so completion is only required of healthy sequences"],
-    level_text="model-based random search: generated Extensions API call sequences against the real stack, answer by answer against a reference model; limit cases enumerated.",
-    level_note="calls are sequential at API granularity; the Logs/Telemetry subscription routes are not part of the property",
-    technique="property-based testing (rapid), stateful model-based: reference registration/lifecycle model as oracle and generator guide",
-)
+PROP = {'engine': 'stack',
+ 'test': 'TestC13',
+ 'level': 'exploration',
+ 'quick': {'checks': 500, 'shards': 12, 'timeout': 1200},
+ 'thorough': {'checks': 15000, 'shards': 14, 'timeout': 3400},
+ 'rule': 'rapid draws, guided by a reference model, an interleaved sequence of <=18 calls of 1-3 external extensions and up to 3 internal ones (sent '
+         'by the runtime process) over {register(events from {INVOKE,SHUTDOWN,JUNK}, name own/empty, feature header none/accountId/junk, body '
+         'valid/malformed/configurationKeys), next, init/error, exit/error with identifier own/missing/invalid/unknown and with/without the '
+         "error-type header} plus the runtime's next and the arrival of an invocation; random function name, version, handler, account id; a limit "
+         'family with 8-12 external extension files. Calls run strictly one after the other (latches). Oracle: reference automaton per extension + '
+         'global rules (unique names, <=10 extensions, event allow-list, SHUTDOWN only external, identifier checks, finality of init/exit error, '
+         "registration closed after the runtime's first next) predicts status and error type of every call; register responses must equal the init "
+         'parameters (accountId only when requested); if every extension is healthy the sequence is closed (everybody polls, an invocation arrives, '
+         'everybody returns) and the invocation must complete - so refused calls have changed no state and no barrier count. Non-trivial: external '
+         'and internal extensions both act and >=1 call is refused.',
+ 'assumptions': ['fake process supervisor (DESIGN 3.4)',
+                 'extensions in a final error state keep initialisation waiting by design, so completion is only required of healthy sequences'],
+ 'level_text': 'model-based random search: generated Extensions API call sequences against the real stack, answer by answer against a reference '
+               'model; limit cases enumerated.',
+ 'level_note': 'calls are sequential at API granularity; the Logs/Telemetry subscription routes are not part of the property',
+ 'technique': 'property-based testing (rapid), stateful model-based: reference registration/lifecycle model as oracle and generator guide'}
